@@ -223,21 +223,6 @@ Proof.
       repeat (destruct Hc as [->|Hc]; [reflexivity|]). subst. reflexivity. }
     rewrite R_eq, E. sim. replace (87 + d - 97 + 10) with d by lia. reflexivity.
 Qed.
-(* ꯍ inside a string *)
-Lemma run_u4 m ba sh rn rc p q a b c d : a < 16 -> b < 16 -> c < 16 -> d < 16 ->
-  exists rn', run (mkS m m ba sh rn rc p q) [] = mkS m m ba sh rn rc p q /\
-  (m = MString \/ m = MSymbol ->
-   run (mkS m m ba sh rn rc p q) [92; 117; hexd a; hexd b; hexd c; hexd d] =
-   mkS m m ba sh rn' 0 p (q ++ utf8 (((a * 16 + b) * 16 + c) * 16 + d))).
-Proof.
-  intros Ha Hb Hc Hd. eexists. split; [reflexivity|]. intros [-> | ->].
-  - rewrite run_cons, R_str_esc, run_cons, R_esc_u, run_cons, R_rune_more, run_cons, R_rune_more, run_cons, R_rune_more by assumption.
-    rewrite run_cons, R_rune_last by assumption. rewrite run_nil. rewrite !N.mul_0_l, !N.add_0_l. reflexivity.
-  - assert (E : R (mkS MSymbol MSymbol ba sh rn rc p q) 92 = mkS MEsc MSymbol ba sh rn rc p q) by reflexivity.
-    rewrite run_cons, E, run_cons, R_esc_u, run_cons, R_rune_more, run_cons, R_rune_more, run_cons, R_rune_more by assumption.
-    rewrite run_cons, R_rune_last by assumption. rewrite run_nil. rewrite !N.mul_0_l, !N.add_0_l. reflexivity.
-Qed.
-
 (* |symbols| *)
 Lemma R_value_pipe n ba sh rn rc p q : R (mkS MValue n ba sh rn rc p q) 124 = mkS MSymbol MSymbol ba sh rn rc p [].
 Proof. reflexivity. Qed.
